@@ -245,6 +245,10 @@ def run_stores(chk, results, binp, wd, thorough):
         # quick tier: time box per store class; the alterations are executed in a stratified order (round-robin over
         # the (field, class) cells), so a prefix still covers every cell; what was not executed is counted
         hargs += ["-budget", os.environ.get("VERIF_C09_BUDGET", "35")]
+    else:
+        # thorough: a larger time box per store class (the full single-bit enumeration of all eight classes did not finish in an hour
+        # on this machine; what was not executed is counted per class in alterations-not-executed-time-budget:<class>)
+        hargs += ["-budget", os.environ.get("VERIF_C09_BUDGET_THOROUGH", "200")]
     selftest = os.environ.get("VERIF_SELFTEST")
     if selftest:
         hargs += ["-selftest", "ReadTx", "-only", "plain-v1", "-limit", "40"]
@@ -269,7 +273,7 @@ def run_stores(chk, results, binp, wd, thorough):
                        "the class combination TLC picked per field pair and the compound alterations; each executed on 9 read paths; "
                        "an evaluation = one (alteration, read path) judged against the pristine content; "
                        "non-trivial = distinct (configuration, alteration class, read path, observed outcome)")
-    chk.cov["exhaustive"] = bool(thorough)
+    chk.cov["exhaustive"] = bool(thorough) and not any(k.startswith("alterations-not-executed-time-budget:") and v for k, v in ctr.items())
     chk.assumptions += [
         "alterations are bit changes of the store files; digest fields are never set to the SHA-256 of altered content (no hash-aware adversary); "
         "copying existing bytes (a commit-log entry over another) is allowed",
